@@ -50,6 +50,7 @@ def _judge(ctx, v, code, rng):
         ctx.violation(kind, msg, {'version': v, 'code': code})
     ctx.count('positions_looked_up', info['positions'])
     ctx.count('zero_width_leaves', info['zero_width'])
+    ctx.count('node_leaf_navigations', info.get('node_leaf_navigations', 0))
     if info['zero_width'] or info['repeated_siblings']:
         ctx.nontriv(v + '\0' + code)
     if info['zero_width'] and len(code) < 80:
@@ -74,4 +75,4 @@ def shards(tier, seed):
 
 def floors(tier):
     return {'evaluations': 2000, 'positions_looked_up': 100000, 'zero_width_leaves': 200,
-            'contract_evals:get_leaf_for_position': 100000}
+            'contract_evals:get_leaf_for_position': 100000, 'node_leaf_navigations': 100000}
